@@ -197,10 +197,11 @@ func init() {
 		Bounds: []string{
 			"per kind (16): the symbolic document of C01 in free form - required and optional strings may be empty, booleans take both values, string arrays and scope maps may be empty, every keyword's presence symbolic; validity against the shipped meta-schema (schemas/v2/schema.json + draft-04, compiled at check time into a solver predicate: type, enum, required, properties, patternProperties, additionalProperties, items, minItems, minProperties, oneOf/anyOf/allOf/not, $ref) is assumed for the input and asserted for the output of decode/encode",
 			"every witness is re-judged by python jsonschema Draft4Validator in the native replay (input valid, output invalid)",
+			"expansion half (vh_C19_expand_*): a two-document specification valid by construction (shared parameters/responses, a referenced path item, body and response schemas, one cyclic schema; references from the root and from the second document); one element - parameter, response, schema or operation - is the symbolic free-form document; ExpandSpec with an in-memory loader",
 		},
-		Outside:     []string{"the expansion half of the property (valid input => valid expanded output) is not claimed: see DESIGN", "format and uniqueItems are not checked (as a Draft4Validator without format checker does for format)", "deeper nesting"},
-		Assumptions: []string{"children are minimal valid documents of their kind"},
-		Models:      []string{"M-json", "meta-schema interpreter (internal/engine/jsonschema.go) cross-checked by python jsonschema on every witness"},
+		Outside:     []string{"expansion half: more than one symbolic element at a time, a symbolic path item (did not finish), integer keywords beyond +-2^53 (they lose precision in the resolver's generic decode; cut by an assumption)", "format and uniqueItems are not checked (as a Draft4Validator without format checker does for format)", "deeper nesting"},
+		Assumptions: []string{"children are minimal valid documents of their kind", "expansion half: the root document validates AND its plain re-encoding validates (the round-trip half is decided by its own harnesses, which own the known findings); only successful expansions are judged"},
+		Models:      []string{"M-json (float view of a symbolic integer token = exact int->binary64 circuit for |i| <= 2^53)", "meta-schema interpreter (internal/engine/jsonschema.go) cross-checked by python jsonschema on every witness"},
 	})
 	reg(&PropSpec{
 		ID: "C11", Prefix: "vh_C11_",
